@@ -129,6 +129,21 @@ def _pda_oracle(args, obs):
             fails.append({"kind": "language", "op": "to_empty_stack", "tags": tags, "result": x.describe(),
                           "detail": "empty-stack language of the result differs from the final-state language "
                                     "of the original on %r" % (sorted(got ^ lf)[:3],)})
+    # conversions of conversions on ONE object (states and stack symbols are shared between the PDAs)
+    for op in ("to_cfg;to_final_state.to_cfg", "to_cfg;to_empty_stack.to_cfg"):
+        if op not in obs:
+            continue
+        res = obs[op]
+        if res[0] == "exc":
+            fails.append(chx.exc_failure(op, res, tags=tags))
+            continue
+        mid, grammar = res[1]
+        want = OP.lang_empty_stack(OP.extract(mid), L)
+        got = OC.words_upto(OC.extract(grammar), L)
+        if got != want:
+            fails.append({"kind": "language", "op": op, "tags": tags,
+                          "detail": "to_cfg() of the derived PDA (after to_cfg() of the source) differs from the "
+                                    "derived PDA's empty-stack language on %r" % (sorted(got ^ want)[:3],)})
     return len(r.transitions) >= 2 and bool(le | lf), fails, dict(r.describe(), tags=tags)
 
 
@@ -143,6 +158,14 @@ def _run_pda(cond, raw, trans, finals, names, stack):
     for op in ("to_cfg", "to_final_state", "to_empty_stack"):
         pda = enc.build_pda(spec)          # fresh object per conversion
         obs[op] = chx.guarded(getattr(pda, op))
+    one = enc.build_pda(spec)
+
+    def chained(conv):
+        one.to_cfg()
+        mid = getattr(one, conv)()
+        return mid, mid.to_cfg()
+    obs["to_cfg;to_final_state.to_cfg"] = chx.guarded(chained, "to_final_state")
+    obs["to_cfg;to_empty_stack.to_cfg"] = chx.guarded(chained, "to_empty_stack")
     return chx.judge("C13", cond, raw, spec, obs, _pda_oracle, realize_obs=False)
 
 
